@@ -616,6 +616,48 @@ def minimise(d):
     return cur
 
 
+def probe_draw():
+    """directed probes of "the subsample is the documented seeded draw without replacement": (i) a large frame where numpy's
+    choice switches algorithm (n = 30000, n_max = 1000: any other way of drawing - shuffle=False, permutation()[:k], a
+    different generator - gives other rows); (ii) ONE Generator handed to several calls: the used generator is
+    np.random.default_rng(rng), i.e. that very object, so call k sees the k-th draw of the generator"""
+    fails = []
+
+    def rows_seen(n, n_max, rng):
+        seen = []
+
+        def pred(Z):
+            Z = np.asarray(Z, dtype=float)
+            seen.append(Z[:, 1].copy())
+            return Z[:, 0] + Z[:, 1]
+        X = np.column_stack([np.zeros(n), np.arange(n, dtype=float)])
+        out = compute_partial_dependence(pred, X, 0, np.array([1.0]), n_max=n_max, rng=rng)
+        return [int(v) for v in seen[0]], float(out[0])
+
+    for n, n_max, seed in ((30000, 1000, 3), (30000, 601, 0), (12000, 599, 5), (2000, 1000, 1)):
+        want = [int(i) for i in np.random.default_rng(seed).choice(n, size=n_max, replace=False)]
+        try:
+            got, val = rows_seen(n, n_max, seed)
+        except Exception as e:  # noqa: BLE001
+            fails.append(dict(case=dict(probe="large draw", n=n, n_max=n_max, seed=seed), clauses=[f"exception on a well-formed input: {type(e).__name__}: {str(e)[:100]}"], observed=None, finding=None))
+            continue
+        got, want = sorted(got), sorted(want)       # the SET of rows is the draw; their order does not affect any returned value
+        if got != want:
+            k = next(i for i, (a, b) in enumerate(zip(got, want)) if a != b) if len(got) == len(want) else None
+            fails.append(dict(case=dict(probe="large draw", n=n, n_max=n_max, seed=seed, X="column 0 zeros, column 1 = row number", grid=[1.0]),
+                              clauses=[f"seed: the rows shown to the predictor are not default_rng({seed}).choice({n}, size={n_max}, replace=False) as a set (first difference of the sorted row numbers at position {k})"],
+                              observed=got[:8], finding=None))
+    g, ref = np.random.default_rng(11), np.random.default_rng(11)
+    for call in (1, 2, 3):
+        want = [int(i) for i in ref.choice(50, size=7, replace=False)]
+        got, val = rows_seen(50, 7, g)
+        if sorted(got) != sorted(want):
+            fails.append(dict(case=dict(probe="one Generator handed to three calls", n=50, n_max=7, generator="default_rng(11)", call=call),
+                              clauses=[f"seed: call {call} with the same Generator object does not use its next draw ({got} instead of {want})"], observed=got, finding=None))
+            break
+    return fails
+
+
 def search(seed, budget):
     tried, found, classes = 0, [], {}
 
@@ -683,6 +725,8 @@ def search(seed, budget):
         m = minimise(f["case"])
         mc, mr = judge_case(m)
         out.append(dict(case=m, clauses=mc, observed=mr["out"], finding=finding_tag(m, mc)))
+    out = probe_draw() + out
+    tried += 7
     print(json.dumps(dict(tried=tried, failures=out[:12],
                           classes={"/".join([k[0], k[1]] + list(k[2])): v for k, v in classes.items()})))
 
